@@ -20,6 +20,14 @@ checks["C08"] = dict(
    text="Proof of the ownership discipline from which linearizability follows: in each of the 6 methods of ConcurrentQueue/ConcurrentStack the call on the wrapped (non-thread-safe) object happens while the wrapper's RWMutex is held in exclusive mode (a read lock is rejected, since every delegated method mutates the wrapped structure - see C06), there is exactly one such call on every path, arguments and results are passed through unchanged, the lock is released in the matching mode on every return path, and the receiver holding the mutex is a pointer (a value receiver would lock a copy). No schedule is explored: the obligations are per call site and path.",
    note="Trusted: sync.RWMutex semantics; the meta-theorem (Herlihy-Wing) that 'acquire exclusive lock; one call on a sequential object; release' is linearizable w.r.t. the sequential specification with the delegated call as linearization point; the wrapped object is used only through the wrapper; the wrapped object is non-nil. Linearizability itself (a statement over all interleavings) is NOT explored or proved by the machine - only this sufficient discipline is.",
    ref="5 C08")
+checks["C04"] = dict(
+   text="Proof, per method of StreamDef (generic) and StreamForInterfaceDef, that (1) the returned stream's element sequence is the one the method's definition prescribes (index-wise; filter-like results via ghost index maps), (2) the receiver and the arguments read the same afterwards, (3) nothing that existed before the call is written - every store in the bodies and in their callees carries a frame obligation 'this storage was allocated by the call (or is in the declared modifies set)', which is what makes every previously obtained collection keep its elements for all programs - and (4) a result is the receiver itself or owns freshly allocated storage. The one documented in-place mutator covered (interface{} Remove) is verified against 'receiver modified and returned'. Len/Get/Contains/ToArray agree with the sequence and ToArray is a detached copy.",
+   note="Covered: StreamFrom/StreamFromArray/FromArray, ToArray, Len, Get, Contains, Clone, Map, Filter, Reject, Distinct, Reverse, Remove, Concat, Append, Minus, RemoveItem, Intersection, IsSubset, IsSuperset for both families (39 functions). NOT yet covered (no contract, hence no claim): Sort/SortByIndex (see C19), Extend, FilterNotNil, the FromArrayXxx converters, and all MapSetDef / SetForInterfaceDef / StreamSetDef / StreamSetForInterfaceDef methods. The step from per-call frames to 'all earlier results, all programs' is the invariant induction of DESIGN.md 5-C04 (ownership: distinct live streams do not share storage unless one was returned as the receiver itself) and is not machine-checked. Trusted: as C03.",
+   ref="5 C04")
+checks["C05"] = dict(
+   text="Proof that the slice and map set operations satisfy their membership characterisations for all operands (Minus, Intersection, Difference, Union, IsSubset, IsSuperset, MinusMapByKey, IsSubsetMapByKey, IsSupersetMapByKey; results that are sets are duplicate-free and ordered by the first operand where the code fixes an order), including the guarded corner cases for empty/nil operands, and that each generic function/method and its interface{} twin satisfy ONE shared contract text (Distinct, Exists, Keys, Values, Merge, SliceToMap, DuplicateMap, Minus, Intersection, IsSubset, IsSuperset, IsSubsetMapByKey, IsSupersetMapByKey and 17 Stream methods): both bodies are verified against the same characterisation, which determines the answer up to the order freedom it states.",
+   note="The 'same answer' conclusion for twins rests on the shared contract determining the result (filter-like triple sub/mono/all; membership + no-duplicates for Union; exact boolean definitions): that determinacy argument is by inspection, not machine-checked. Precondition on Intersection/Difference: called with nil or at least one list. NOT yet covered: IntersectionMapByKey(+twin), DistinctRandom, the MapSet/StreamSet families and their twins. Trusted: as C03.",
+   ref="5 C05")
 na = {
  "C07": "quantifies over producer/consumer/loader interleavings and includes liveness (nothing stranded, wake-ups not lost); no per-function contract expresses cross-goroutine exactly-once hand-over or eventual loading (DESIGN.md 6).",
  "C09": "every clause is about goroutine scheduling, timers and recovery from panics in other goroutines; the named defect is a lost wake-up (liveness under a fault) (DESIGN.md 6).",
